@@ -104,9 +104,12 @@ def gen(chk):
 
 def evaluate(chk, cases, tag='cases'):
     obs = chk.run_impl('C17', {'cases': cases})['cases']
-    terms = [render(c, o) for c, o in zip(cases, obs)]
-    failing = chk.coq_failing(HEADER, terms, 'check_case', shard=250, tag=tag)
-    return terms, obs, failing
+    crashed = [i for i, o in enumerate(obs) if 'crash' in o]
+    live = [i for i, o in enumerate(obs) if 'crash' not in o]
+    terms = {i: render(cases[i], obs[i]) for i in live}
+    failing = [live[j] for j in chk.coq_failing(HEADER, [terms[i] for i in live], 'check_case', shard=250, tag=tag)]
+    terms = [terms.get(i, '(* implementation crashed *)') for i in range(len(cases))]
+    return terms, obs, sorted(failing + crashed)
 
 
 def shrink(chk, case):
@@ -139,7 +142,7 @@ def run(chk):
         key = {k: c[k] for k in c if k != 'queries'}
         chk.note_case(key, nontrivial=nontrivial, sample_every=700)
     chk.extra['exhaustive_histories'] = n_exh
-    chk.extra['reads_compared'] = sum(len(o['reads']['cells']) + len(o['reads']['rows']) + len(o['reads']['civ']) for o in obs)
+    chk.extra['reads_compared'] = sum(len(o['reads']['cells']) + len(o['reads']['rows']) + len(o['reads']['civ']) for o in obs if 'reads' in o)
     chk.exhaustive = True
     chk.rule = ('all assignment sequences of length <= %d over the 12 non-zero assignments of a 2x3 matrix; degenerate shapes with every '
                 'in/out-of-range coordinate; random histories (uniform / descending columns / one row / overwrites, <= 40 ops, shapes <= 8x8, '
